@@ -12,7 +12,8 @@ Model driver for engine `room` (local path). Same op lines as `harness/room` (se
   sync from=<site> to=<site> r=<room>
 with `mode=fn` in the case header (one database, several caller identities; see harness `bench.rs`):
   rmut k=<key> d=<date> r=<room> … | robs r=<room>
-  new k= d= h= e= [room=] v= | upd k= d= h= [room=] [v=] | nest k= d= h= [pn=] [room=] [v=] f= c=
+  new k= d= h= e= [room=] v= | upd k= d= h= [room=] [v=] | nest k= d= h= [pn=] [room=] [v=] f= c=<entry>+<entry>…
+    (entries: the tree below the mutated entity in pre-order, `.` per level; `:f<label>` on an entry that has sub-entities)
   null k= d= h= f= | del k= d= h= | delref k= d= h= f= c= | deladm k= d= r= i=
 anything else -> `bad-op`
 -/
@@ -208,8 +209,20 @@ def optInt (toks : List String) (k : String) : Option (Option Int) :=
     | some v => some (some v)
     | none => none
 
-/-- `h3` | `h3:v7` | `h3:v7:r1` | `n4:v2` | `n4:v2:r0` -/
-def parseChild (t : String) : Option (Nat × Bool × Option Int × Option Nat) :=
+/-- one entity below the mutated one, in the pre-order listing of the tree: `depth` dots, then
+    `h3` | `h3:v7` | `h3:v7:r1` | `n4:v2` | `n4:v2:r0`, optionally `:f<label>` when the entries that follow one level
+    deeper are the targets of its reference field `label` -/
+structure CEntry where
+  depth : Nat
+  handle : Nat
+  isNew : Bool
+  v : Option Int
+  r : Option Nat
+  f : Option Nat
+
+def parseChild (t0 : String) : Option CEntry :=
+  let depth := (t0.toList.takeWhile (· = '.')).length
+  let t := (t0.drop depth).toString
   match t.splitOn ":" with
   | [] => none
   | head :: rest =>
@@ -220,37 +233,72 @@ def parseChild (t : String) : Option (Nat × Bool × Option Int × Option Nat) :
     match hd with
     | none => none
     | some (isNew, handle) =>
-      let step : Option (Option Int × Option Nat) → String → Option (Option Int × Option Nat) := fun acc p =>
+      let step : Option (Option Int × Option Nat × Option Nat) → String → Option (Option Int × Option Nat × Option Nat) :=
+        fun acc p =>
         match acc with
         | none => none
-        | some (v, r) =>
-          if p.startsWith "v" then (p.drop 1).toInt?.map fun x => (some x, r)
-          else if p.startsWith "r" then (p.drop 1).toNat?.map fun x => (v, some x)
+        | some (v, r, f) =>
+          if p.startsWith "v" then (p.drop 1).toInt?.map fun x => (some x, r, f)
+          else if p.startsWith "r" then (p.drop 1).toNat?.map fun x => (v, some x, f)
+          else if p.startsWith "f" then (p.drop 1).toNat?.map fun x => (v, r, some x)
           else none
-      match rest.foldl step (some (none, none)) with
+      match rest.foldl step (some (none, none, none)) with
       | none => none
-      | some (v, r) => if isNew && v.isNone then none else some (handle, isNew, v, r)
+      | some (v, r, f) => if isNew && v.isNone then none else some { depth, handle, isNew, v, r, f }
 
-def parseChildren (s : String) : Option (List (Nat × Bool × Option Int × Option Nat)) :=
+def parseChildren (s : String) : Option (List CEntry) :=
   match ((s.splitOn "+").filter (· ≠ "")).mapM parseChild with
   | some (x :: t) => some (x :: t)
   | _ => none
 
-def mkLeaves (w : World) (h : Nat) (parentNew : Bool) (dstE : Ent) :
-    List (Nat × Bool × Option Int × Option Nat) → List Nat → Option (List Leaf)
-  | [], _ => some []
-  | (handle, isNew, v, r) :: t, seen =>
-    if seen.contains handle then none
+/-- the entities of one level (`depth`), each followed by its own sub-entities one level deeper; returns them and
+    the entries that belong to the levels above. `dstE`: the entity the enclosing reference field points to. -/
+def forest (w : World) : Nat → Nat → Ent → List CEntry → Option (List LocalWrite.Mut × List CEntry)
+  | 0, _, _, _ => none
+  | _ + 1, _, _, [] => some ([], [])
+  | fuel + 1, depth, dstE, e :: rest =>
+    if e.depth < depth then some ([], e :: rest)
+    else if e.depth > depth then none
     else
-      let okHandle :=
-        if isNew then (handleEnt w handle).isNone && !(parentNew && handle = h)
-        else handleEnt w handle = some dstE
-      let room : Option (Option Id) := match r with
+      let room : Option (Option Id) := match e.r with
         | none => some none
         | some r => if w.rooms.contains r then some (some r) else none
-      match okHandle, room, mkLeaves w h parentNew dstE t (handle :: seen) with
-      | true, some room, some rest => some ({ handle, isNew, entity := dstE, room, val := v } :: rest)
-      | _, _, _ => none
+      match room with
+      | none => none
+      | some room =>
+        let sub : Option (LocalWrite.Field × List CEntry) :=
+          match e.f with
+          | none =>
+            match rest with
+            | x :: _ => if x.depth > depth then none else some (.none, rest)
+            | [] => some (.none, rest)
+          | some f =>
+            if 3 ≤ f ∨ (labelTypes f).1 ≠ dstE then none
+            else
+              match forest w fuel (depth + 1) (labelTypes f).2 rest with
+              | none => none
+              | some (kids, rest') =>
+                match f, kids with
+                | _, [] => none
+                | 0, ks => some (.arr 0 ks, rest')
+                | f, [k] => some (.ent f k, rest')
+                | _, _ => none
+        match sub with
+        | none => none
+        | some (field, rest') =>
+          match forest w fuel depth dstE rest' with
+          | none => none
+          | some (more, rest'') => some (.mk e.handle e.isNew dstE room e.v field :: more, rest'')
+
+/-- every entity of the tree: (handle, new?, entity), the mutated entity first -/
+def treeHandles (m : LocalWrite.Mut) : List (Nat × Bool × Ent) :=
+  (LocalWrite.flatten LocalWrite.Db.empty 0 none false m).map fun it => (it.handle, it.isNew, it.entity)
+
+/-- handles are distinct over the whole tree; a new entity's handle is free, an existing one's is bound to the
+    entity the field points to -/
+def handlesOk (w : World) (hs : List (Nat × Bool × Ent)) : Bool :=
+  (hs.map (·.1)).eraseDups.length = hs.length &&
+  hs.all fun (h, isNew, e) => if isNew then (handleEnt w h).isNone else handleEnt w h = some e
 
 /-! #### the peer (C12): fed through the ingestion model -/
 
@@ -288,7 +336,7 @@ def feedEdgeDels (d : Ingest.Defects) : Feed → List EdgeTomb → Feed
   | f, [] => f
   | f, t :: rest =>
     let r := toEdgeDel t
-    if Ingest.edgeDelAccepted d f.s r.room r then
+    if Ingest.edgeDelAccepted d f.s r then
       feedEdgeDels d { f with s := Ingest.applyEdgeDel f.s r, sent := f.sent + 1, accepted := f.accepted + 1,
                               taken := f.taken ++ [s!"de{hname f.hs t.src}>{t.label}>{hname f.hs t.dest}"] } rest
     else
@@ -298,7 +346,7 @@ def feedNodeDels (d : Ingest.Defects) : Feed → List NodeTomb → Feed
   | f, [] => f
   | f, t :: rest =>
     let r := toNodeDel t
-    if Ingest.nodeDelAccepted d f.s r.room r then
+    if Ingest.nodeDelAccepted d f.s r then
       feedNodeDels d { f with s := Ingest.applyNodeDel f.s r, sent := f.sent + 1, accepted := f.accepted + 1,
                               taken := f.taken ++ [s!"dn{hname f.hs t.id}"] } rest
     else feedNodeDels d { f with sent := f.sent + 1, refused := f.refused ++ [s!"dn{hname f.hs t.id}"] } rest
@@ -421,7 +469,7 @@ def stepFn (w : World) (kind : String) (rest : List String) : World × String :=
     | some k, some d, some h, some e, some v, some room =>
       if e < 1 ∨ 3 < e ∨ (handleEnt w h).isSome then (w, "bad-op")
       else
-        let m : LocalWrite.Mut := { handle := h, isNew := true, entity := e, room, val := some v, field := .none }
+        let m : LocalWrite.Mut := .mk h true e room (some v) .none
         let r := LocalWrite.mutate w.dfl (rooms w) w.db k d m
         let o := LocalWrite.mutateOutbox w.dfl (rooms w) w.db k d m
         match r with
@@ -434,35 +482,39 @@ def stepFn (w : World) (kind : String) (rest : List String) : World × String :=
       match handleEnt w h with
       | none => (w, "bad-op")
       | some e =>
-        let m : LocalWrite.Mut := { handle := h, isNew := false, entity := e, room, val := v, field := .none }
+        let m : LocalWrite.Mut := .mk h false e room v .none
         finishP w w (LocalWrite.mutate w.dfl (rooms w) w.db k d m) (LocalWrite.mutateOutbox w.dfl (rooms w) w.db k d m)
     | _, _, _, _, _ => (w, "bad-op")
   | "nest" =>
     match nat? rest "k", int? rest "d", nat? rest "h", nat? rest "f", (kv? rest "c").bind parseChildren,
           optRoom w rest "room", optInt rest "v" with
-    | some k, some d, some h, some f, some children, some room, some v =>
-      if 3 ≤ f ∨ (f ≠ 0 ∧ children.length ≠ 1) then (w, "bad-op")
+    | some k, some d, some h, some f, some entries, some room, some v =>
+      if 3 ≤ f then (w, "bad-op")
       else
         let (srcE, dstE) := labelTypes f
         let parentNew := (kv? rest "pn").isSome
-        let parentOk :=
-          if parentNew then nat? rest "pn" = some srcE && (handleEnt w h).isNone && v.isSome
-          else handleEnt w h = some srcE
-        match parentOk, mkLeaves w h parentNew dstE children [] with
-        | true, some leaves =>
-          let field : LocalWrite.Field := match f, leaves with
-            | 0, ls => .arr 0 ls
-            | f, [l] => .ent f l
-            | _, _ => .none
-          let m : LocalWrite.Mut := { handle := h, isNew := parentNew, entity := srcE, room, val := v, field }
-          let r := LocalWrite.mutate w.dfl (rooms w) w.db k d m
-          let o := LocalWrite.mutateOutbox w.dfl (rooms w) w.db k d m
-          match r with
-          | .ok _ =>
-            let newH := (if parentNew then [(h, srcE)] else []) ++
-              (leaves.filter (·.isNew)).map fun l => (l.handle, dstE)
-            finishP { w with handles := w.handles ++ newH } w r o
-          | .error _ => finishP w w r o
+        let parentOk := if parentNew then nat? rest "pn" = some srcE && v.isSome else true
+        match parentOk, forest w (entries.length + 1) 0 dstE entries with
+        | true, some (kids, []) =>
+          let field : Option LocalWrite.Field := match f, kids with
+            | _, [] => none
+            | 0, ks => some (.arr 0 ks)
+            | f, [l] => some (.ent f l)
+            | _, _ => none
+          match field with
+          | none => (w, "bad-op")
+          | some field =>
+            let m : LocalWrite.Mut := .mk h parentNew srcE room v field
+            let hs := treeHandles m
+            if !handlesOk w hs then (w, "bad-op")
+            else
+              let r := LocalWrite.mutate w.dfl (rooms w) w.db k d m
+              let o := LocalWrite.mutateOutbox w.dfl (rooms w) w.db k d m
+              match r with
+              | .ok _ =>
+                let newH := (hs.filter (·.2.1)).map fun (h, _, e) => (h, e)
+                finishP { w with handles := w.handles ++ newH } w r o
+              | .error _ => finishP w w r o
         | _, _ => (w, "bad-op")
     | _, _, _, _, _, _, _ => (w, "bad-op")
   | "null" =>
@@ -473,7 +525,7 @@ def stepFn (w : World) (kind : String) (rest : List String) : World × String :=
         let (srcE, _) := labelTypes f
         if handleEnt w h ≠ some srcE then (w, "bad-op")
         else
-          let m : LocalWrite.Mut := { handle := h, isNew := false, entity := srcE, room := none, val := none, field := .null f }
+          let m : LocalWrite.Mut := .mk h false srcE none none (.null f)
           finishP w w (LocalWrite.mutate w.dfl (rooms w) w.db k d m) (LocalWrite.mutateOutbox w.dfl (rooms w) w.db k d m)
     | _, _, _, _ => (w, "bad-op")
   | "del" =>
